@@ -19,6 +19,7 @@ import (
 
 func init() {
 	vHarnesses["VerifH_C10_bolt"] = VerifH_C10_bolt
+	vHarnesses["VerifH_C10_bolt_volume"] = VerifH_C10_bolt_volume
 }
 
 type c10tTx struct{ view *c10Store }
@@ -133,4 +134,9 @@ func c10tOpen() kvi.KVInterface {
 // answers like the sorted-map model.
 func VerifH_C10_bolt() {
 	c10Run(c10tOpen(), "bolt")
+}
+
+// VerifH_C10_bolt_volume: DeletePrefix over key counts around its block size.
+func VerifH_C10_bolt_volume() {
+	c10Volume(c10tOpen(), "bolt")
 }
